@@ -281,6 +281,9 @@ func runScenario(t *engine.T, sc scenario, yields bool, bound, maxExec int, budg
 		f()
 	}
 	e.expected = ref.outs
+	if os.Getenv("VERIF_C20_DEBUG") != "" {
+		fmt.Fprintf(os.Stderr, "DEBUG %s expected outs: %q\n", sc.name, ref.outs)
+	}
 	if rt := e.newRaceText(); rt != "" {
 		e.fail(sc.name+"/"+raceKey(rt)+"/sequential", "race report during the sequential reference run:\n%s", clip(rt, 1000))
 	}
